@@ -1,5 +1,6 @@
 import Hertz.Proofs.Resp
 import Hertz.Proofs.RespMessage
+import Hertz.Proofs.RespSeq
 /-!
 # C04 — every response put on the wire is one well-formed, correctly framed message
 
@@ -73,10 +74,23 @@ TODO-OPEN (what remains outside the theorems):
   `withFraming (.cl n)`; the two agree unless the handler wrote a non-canonical decimal
   (`Header.Set("Content-Length","05")` after `SetBodyStream`: real `Content-Length: 05`, model `5`; both
   well-formed, same framing).  The generator only emits canonical decimals after a stream;
-* a body stream that delivers fewer bytes than declared (`failed = true`) is excluded by hypothesis: the
-  message is cut short and the connection closed (checked per case by the driver);
-* the `Connection` header decision (`connHeader`) and the sequencing of several responses on one connection
-  (`expected` in the driver) are still checked per explored case only;
+* (closed by X04, section "the connection after a response" at the end of this file) a body stream that delivers
+  fewer bytes than declared (`failed = true`): `short_stream_closes`, `short_stream_undecodable`,
+  `short_stream_is_detected`; the `Connection` decision: `close_decision_cases`, `close_decision_announced`,
+  `close_decision_keep_alive_1_0`, `close_decision_announced_fails_at_early_header`; sequencing:
+  `responses_decode_in_sequence(_any_state)`, `answered_up_to_first_close`, `wire_is_concatenation`,
+  `no_response_after_close(_wire)`.  The model of the loop
+  is `Model/Http1/RespSeq.lean`, the client is `Spec/RespSeq.lean`; op `respq` compares the whole wire of
+  pipelined connections with `RespSeq.wire 4096` byte for byte;
+* still open after X04: the sequencing theorems assume `Good` / `GoodInv` exchanges — `HeadOK` resp. `HeadInv` header
+  states (`responses_decode_in_sequence_any_state`; the short-stream theorems are stated for `HeadOK`), no generic field that reads
+  `Connection: close` in any letter case (`Header.Set("Connection", "upgrade")` is inside the hypotheses;
+  `Header.Set("Connection", "Close")` is exactly the excluded region and the known-finding class
+  `connection-close-case`: `close_decision_announced_fails_at_close_case`), the header's close flag equal to
+  `Response.ConnectionClose()`; what a hijack handler itself writes after `Serve` hands the connection over is
+  outside the model; `flushedBody` describes `standard.Conn.ReadFrom` (netpoll's writer has no `ReadFrom`: there
+  `copyBuffer` flushes after every read — the theorems hold for every `cap`, the per-case comparison is for the
+  standard transport); the request side of the decision (`ReqConn` from the request bytes) is C01's parser;
 * header states outside `HeadInv` (generic field literally named Content-Length through `AddArgBytes`, a
   Content-Length that does not parse) are not covered.
 -/
@@ -579,5 +593,247 @@ theorem status_out_of_range_fails_at :
 example : message { rReal with statusLine := statusLineOf 1000 strUnknownStatus } ⟨1000, .bytes [104, 105], []⟩ false =
     [72, 84, 84, 80, 47, 49, 46, 49, 32, 49, 48, 48, 48, 32, 85, 110, 107, 110, 111, 119, 110, 32, 83, 116, 97, 116, 117, 115, 32, 67, 111, 100, 101, 13, 10, 83, 101, 114, 118, 101, 114, 58, 32, 104, 101, 114, 116, 122, 13, 10, 68, 97, 116, 101, 58, 32, 84, 117, 101, 44, 32, 50, 57, 32, 83, 101, 112, 32, 50, 48, 50, 54, 32, 48, 57, 58, 53, 52, 58, 49, 51, 32, 71, 77, 84, 13, 10, 67, 111, 110, 116, 101, 110, 116, 45, 84, 121, 112, 101, 58, 32, 116, 101, 120, 116, 47, 112, 108, 97, 105, 110, 59, 32, 99, 104, 97, 114, 115, 101, 116, 61, 117, 116, 102, 45, 56, 13, 10, 67, 111, 110, 116, 101, 110, 116, 45, 76, 101, 110, 103, 116, 104, 58, 32, 50, 13, 10, 13, 10, 104, 105] := by
   decide +kernel
+
+/-! ## X04 — the connection after a response: sequencing, short streams, the `Connection` decision
+
+`H1.RespSeq` (Model/Http1/RespSeq.lean) is the write side of `Serve`'s keep-alive loop for a list of exchanges;
+`Spec.Resp.decodeSeq` (Spec/RespSeq.lean) is the client reading the connection with the strict reader.  `cap` is
+the size of the connection's output buffer (what `standard.Conn.ReadFrom` had flushed of a short stream); every
+statement holds for every `cap`. -/
+section Seq
+open Hertz.H1.RespSeq Hertz.Gen.Str
+
+/-- **each next response starts exactly where the previous one ends**: for every list of exchanges with `HeadOK`
+header states (no writer failing), the client reads back exactly the responses of the exchanges `Serve` answered
+— all of them up to and including the first one that closes (or hijacks) — and nothing is left over -/
+theorem responses_decode_in_sequence (cap : Nat) (xs : List Exch) (hg : ∀ e ∈ xs, Good e ∧ e.early = false)
+    (hf : ∀ e ∈ xs, failed e = false) :
+    decodeSeq (xs.map (·.isHead)) (wire cap xs) = some ((answered xs).map expMsg, []) :=
+  decodeSeq_wire cap xs hg hf
+
+/-- what "answered" means: the exchanges before the first one that ends `Serve`'s loop (close decision, hijack, writer
+error), and that one too unless its writer failed; always an initial segment of the request stream -/
+theorem answered_up_to_first_close (pre : List Exch) (e : Exch) (es : List Exch) (hp : ∀ x ∈ pre, stops x = false)
+    (hs : stops e = true) : answered (pre ++ e :: es) = if failed e then pre else pre ++ [e] :=
+  answered_upto pre e es hp hs
+
+theorem answered_is_prefix (xs : List Exch) : answered xs <+: xs := answered_prefix xs
+
+theorem answered_everything_on_keep_alive (xs : List Exch) (h : ∀ x ∈ xs, stops x = false) : answered xs = xs :=
+  answered_all xs h
+
+/-- the messages of exchanges that keep the connection stand one behind the other, then the rest of the loop -/
+theorem wire_is_concatenation (cap : Nat) (pre es : List Exch) (h : ∀ x ∈ pre, stops x = false) :
+    wire cap (pre ++ es) = (pre.map msg).flatten ++ wire cap es :=
+  wire_append_go cap pre es h
+
+/-- **a stream shorter than declared is the last thing on the wire**, for every continuation `es` of the request
+stream and wherever the exchange stands; what is written of it is the header block and whole buffers of the bytes
+delivered (`partialMsg`) -/
+theorem short_stream_closes (cap : Nat) (pre : List Exch) (e : Exch) (es : List Exch) (hf : failed e = true) :
+    wire cap (pre ++ e :: es) = wire cap (pre ++ [e]) ∧
+    ((∀ x ∈ pre, stops x = false) → wire cap (pre ++ e :: es) = (pre.map msg).flatten ++ partialMsg cap e) := by
+  have hs : stops e = true := by simp [stops, hf]
+  refine ⟨wire_after_stop cap pre e es hs, fun hp => ?_⟩
+  rw [wire_after_stop cap pre e es hs, wire_append_go cap pre [e] hp, wire_failed_last cap e hf]
+
+/-- what is written of it cannot be taken for a complete message … -/
+theorem short_stream_undecodable (cap : Nat) (e : Exch) (g : Good e) (hf : failed e = true) :
+    decodeOne e.isHead (partialMsg cap e) = none :=
+  partial_undecodable cap e g hf
+
+/-- … so the client gets an error for that connection, never a body the handler did not produce (seed C04-m5
+breaks exactly this: the next response was taken for the rest of the body) -/
+theorem short_stream_is_detected (cap : Nat) (pre : List Exch) (e : Exch) (es : List Exch) (g : Good e)
+    (hf : failed e = true) (hp : ∀ x ∈ pre, Good x ∧ x.early = false ∧ stops x = false) :
+    decodeSeq ((pre ++ e :: es).map (·.isHead)) (wire cap (pre ++ e :: es)) = none :=
+  decodeSeq_short cap e es g hf pre hp
+
+/-- **close decision, the rule**: `Serve` closes after an exchange exactly for: server not keeping connections,
+request `Connection: close`, HTTP/1.0 request without `Connection: keep-alive`, response marked close (handler, or
+`Serve`'s own error answer) -/
+theorem close_decision_cases (e : Exch) :
+    closes e = true ↔ e.srvClose = true ∨ e.reqConn = .close ∨ (e.http11 = false ∧ e.reqConn ≠ .keepAlive) ∨ e.respClose = true :=
+  closes_iff e
+
+/-- **close decision, announced**: the response the client reads carries `Connection: close` exactly when the model
+closes (header block not sent early by the hijacked writer) -/
+theorem close_decision_announced (e : Exch) (g : Good e) (he : e.early = false) : saysClose (expMsg e) = closes e :=
+  saysClose_expMsg e g he
+
+/-- an HTTP/1.0 peer whose connection is kept reads `Connection: keep-alive` -/
+theorem close_decision_keep_alive_1_0 (e : Exch) (he : e.early = false) (hc : closes e = false) (hv : e.http11 = false) :
+    saysKeepAlive (expMsg e) = true :=
+  saysKeepAlive_expMsg e he hc hv
+
+/-- **nothing follows** an exchange after which `Serve` leaves its loop (close decision, writer error, hijack) -/
+theorem no_response_after_close (cap : Nat) (pre : List Exch) (e : Exch) (es : List Exch) (h : stops e = true) :
+    wire cap (pre ++ e :: es) = wire cap (pre ++ [e]) :=
+  wire_after_stop cap pre e es h
+
+theorem no_response_after_close_wire (cap : Nat) (pre : List Exch) (e : Exch) (es : List Exch) (h : closes e = true)
+    (hok : failed e = false) (hp : ∀ x ∈ pre, stops x = false) :
+    wire cap (pre ++ e :: es) = (pre.map msg).flatten ++ msg e := by
+  have hs : stops e = true := by simp [stops, h]
+  rw [wire_after_stop cap pre e es hs, wire_append_go cap pre [e] hp]
+  simp [wire, hok, h]
+
+/-! ### non-vacuity, and where the announcement is false -/
+
+/-- `GET` HTTP/1.1 answered `200` with body `hi` -/
+def xHi : Exch := { http11 := true, reqConn := .absent, isHead := false, r := rReal, p := ⟨200, .bytes [104, 105], []⟩, respClose := false }
+/-- `SetBodyStream(r, 5)` whose reader delivers `ab` and then `io.EOF` -/
+def xShort : Exch := { xHi with p := ⟨200, .stream 5 [[97, 98]], []⟩ }
+/-- an HTTP/1.0 request with `Connection: keep-alive` -/
+def xOld : Exch := { xHi with http11 := false, reqConn := .keepAlive }
+/-- `ctx.SetConnectionClose()` -/
+def xBye : Exch := { xHi with r := { rReal with connClose := true }, respClose := true }
+
+theorem good_of_rReal (e : Exch) (h1 : e.r.h = []) (h2 : e.r.statusLine = rReal.statusLine) (h3 : e.r.clBytes = [])
+    (h4 : e.p.status = 200) (hs : SizesFit e.p) (hw : WriterHasBody e.p e.isHead) (hc : e.r.connClose = e.respClose) : Good e :=
+  { head := by
+      rw [h4]
+      exact ⟨by decide, by decide, ⟨[79, 75], by unfold NoCRLF; decide, h2⟩, h3, by intro kv h; rw [h1] at h; cases h⟩
+    sizes := hs, writer := hw, noConn := by intro kv h; rw [h1] at h; cases h
+    flag := hc }
+
+theorem xHi_good : Good xHi := good_of_rReal _ rfl rfl rfl rfl (by simp [xHi, SizesFit]) (by intro s h; cases h) rfl
+theorem xOld_good : Good xOld := good_of_rReal _ rfl rfl rfl rfl (by simp [xOld, xHi, SizesFit]) (by intro s h; cases h) rfl
+theorem xBye_good : Good xBye := good_of_rReal _ rfl rfl rfl rfl (by simp [xBye, xHi, SizesFit]) (by intro s h; cases h) rfl
+theorem xShort_good : Good xShort :=
+  good_of_rReal _ rfl rfl rfl rfl (by simp [xShort, xHi, SizesFit]) (by intro s h; cases h) rfl
+
+example : failed xShort = true ∧ failed xHi = false ∧ closes xBye = true ∧ closes xOld = false := by decide
+
+example : answered [xHi, xOld, xBye, xHi] = [xHi, xOld, xBye] ∧ answered [xHi, xShort, xHi] = [xHi] := by
+  constructor
+  · exact answered_up_to_first_close [xHi, xOld] xBye [xHi]
+      (by intro x hx; simp only [List.mem_cons, List.not_mem_nil, or_false] at hx; rcases hx with rfl | rfl <;> decide) (by decide)
+  · exact answered_up_to_first_close [xHi] xShort [xHi]
+      (by intro x hx; simp only [List.mem_singleton] at hx; subst hx; decide) (by decide)
+
+
+/-- three requests, the third asks to close, a fourth is never answered -/
+example : decodeSeq [false, false, false, false] (wire 4096 [xHi, xOld, xBye, xHi]) = some ([expMsg xHi, expMsg xOld, expMsg xBye], []) :=
+  responses_decode_in_sequence 4096 [xHi, xOld, xBye, xHi]
+    (by intro e he; simp only [List.mem_cons, List.not_mem_nil, or_false] at he
+        rcases he with rfl | rfl | rfl | rfl
+        · exact ⟨xHi_good, rfl⟩
+        · exact ⟨xOld_good, rfl⟩
+        · exact ⟨xBye_good, rfl⟩
+        · exact ⟨xHi_good, rfl⟩)
+    (by decide)
+
+/-- replayed on the real server (`respq Q:GET:1.1:- ST:200 B:6869 / Q:GET:1.1:- ST:200 BS:5:6162 / Q:GET:1.1:- ST:200 B:6869`):
+the first response, then the header block announcing 5 bytes, and nothing else — the two bytes delivered are still in
+the output buffer when `Serve` returns -/
+example : wire 4096 [xHi, xShort, xHi] = msg xHi ++ (withFraming rReal (.cl 5)).bytes := by decide +kernel
+
+example : decodeSeq [false, false, false] (wire 4096 [xHi, xShort, xHi]) = none :=
+  short_stream_is_detected 4096 [xHi] xShort [xHi] xShort_good (by decide)
+    (by intro x hx; simp only [List.mem_singleton] at hx; subst hx; exact ⟨xHi_good, rfl, by decide⟩)
+
+example : saysKeepAlive (expMsg xOld) = true ∧ saysClose (expMsg xBye) = true ∧ saysClose (expMsg xHi) = false :=
+  ⟨close_decision_keep_alive_1_0 xOld rfl (by decide) rfl,
+   by rw [close_decision_announced xBye xBye_good rfl]; decide,
+   by rw [close_decision_announced xHi xHi_good rfl]; decide⟩
+
+/-- the hijacked chunked writer sends the header block with its first `Write`; a `ctx.SetConnectionClose()` after
+that closes the connection without the response saying so (`respq Q:GET:1.1:- ST:200 CW:w6869 CC / …`) -/
+def xEarly : Exch :=
+  { xHi with p := ⟨200, .writer [.write [104, 105]], []⟩, respClose := true, early := true }
+
+theorem close_decision_announced_fails_at_early_header :
+    ¬ (∀ e : Exch, HeadOK e.r e.p.status → NoConn e.r.h → saysClose (expMsg e) = closes e) := by
+  intro H
+  have h := H xEarly rReal_ok (by intro kv h; cases h)
+  have h1 : closes xEarly = true := by decide
+  have h2 : saysClose (expMsg xEarly) = false :=
+    saysClose_expMsg_early xEarly (by intro kv h; cases h) rfl
+  rw [h1, h2] at h
+  cases h
+
+/-- the same **for every header state the setters can reach** (`HeadInv`: `Content-Length` already set by
+`SetBodyStream` / `Header.Set`, `Transfer-Encoding: chunked` already among the generic fields); `d e` is what the header
+state of `e` declares by itself, the response read back has the framing `effFraming (d e) (writer's framing)` -/
+theorem responses_decode_in_sequence_any_state (cap : Nat) (d : Exch → Spec.Resp.Framing) (xs : List Exch)
+    (hg : ∀ e ∈ xs, GoodInv (d e) e ∧ e.early = false) (hf : ∀ e ∈ xs, failed e = false) :
+    decodeSeq (xs.map (·.isHead)) (wire cap xs) = some ((answered xs).map (fun e => expMsgInv (d e) e), []) :=
+  decodeSeq_wire_inv cap d xs hg hf
+
+/-- `c.Header("Content-Length", "5")` on the answer to a HEAD request, then an ordinary exchange -/
+def xDeclared : Exch := { xHi with isHead := true, r := rDeclared, p := ⟨200, .bytes [], []⟩ }
+
+theorem xDeclared_good : GoodInv (.cl 5) xDeclared :=
+  { head := rDeclared_inv, sizes := by simp [xDeclared, xHi, SizesFit], writer := by intro s h; cases h
+    noConn := by intro kv h; cases h
+    flag := rfl }
+
+example : decodeSeq [true, false] (wire 4096 [xDeclared, xHi]) =
+    some ([expMsgInv (.cl 5) xDeclared, expMsgInv .none xHi], []) :=
+  responses_decode_in_sequence_any_state 4096 (fun e => if e.isHead then .cl 5 else .none) [xDeclared, xHi]
+    (by intro e he; simp only [List.mem_cons, List.not_mem_nil, or_false] at he
+        rcases he with rfl | rfl
+        · exact ⟨xDeclared_good, rfl⟩
+        · exact ⟨xHi_good.inv, rfl⟩)
+    (by decide)
+
+/-- `Header.Set("Connection", "Close")`: not the bytes `close`, so the value is stored as a generic field and the
+close flag stays clear -/
+def xCloseCase : Exch := { xHi with r := { rReal with h := [(strConnection, [67, 108, 111, 115, 101])] } }
+/-- `Header.Set("Connection", "upgrade")` is inside the hypotheses -/
+def xUpgrade : Exch := { xHi with r := { rReal with h := [(strConnection, [117, 112, 103, 114, 97, 100, 101])] } }
+
+theorem xUpgrade_good : Good xUpgrade :=
+  { head := ⟨by decide, by decide, ⟨[79, 75], by unfold NoCRLF; decide, rfl⟩, rfl, by
+      intro kv h
+      simp only [xUpgrade, xHi, List.mem_singleton] at h
+      subst h
+      exact ⟨sCL_ne_conn, sTE_ne_conn⟩⟩
+    sizes := by simp [xUpgrade, xHi, SizesFit], writer := by intro s h; cases h
+    noConn := by
+      intro kv h
+      simp only [xUpgrade, xHi, List.mem_singleton] at h
+      subst h
+      exact Or.inr (by decide +kernel)
+    flag := rfl }
+
+example : saysClose (expMsg xUpgrade) = false := by
+  rw [close_decision_announced xUpgrade xUpgrade_good rfl]; decide
+
+/-- **finding (known-finding class `connection-close-case`)**: without the hypothesis on the generic fields the
+announcement is false — the response reads `Connection: Close`, which every client takes for the `close` option
+(RFC 7230 §6.1), and `Serve` keeps the connection and answers the next pipelined request behind it.  Replayed on the
+real server: `respq Q:GET:1.1:- ST:200 H:436f6e6e656374696f6e:436c6f7365 B:6869 / Q:GET:1.1:- ST:200 B:6869`. -/
+theorem close_decision_announced_fails_at_close_case :
+    ¬ (∀ e : Exch, HeadOK e.r e.p.status → e.early = false → e.r.connClose = e.respClose →
+        saysClose (expMsg e) = closes e) := by
+  intro H
+  have h := H xCloseCase
+    ⟨by decide, by decide, ⟨[79, 75], by unfold NoCRLF; decide, rfl⟩, rfl, by
+      intro kv h
+      simp only [xCloseCase, xHi, List.mem_singleton] at h
+      subst h
+      exact ⟨sCL_ne_conn, sTE_ne_conn⟩⟩ rfl rfl
+  have h1 : closes xCloseCase = false := by decide
+  have h2 : saysClose (expMsg xCloseCase) = true := by
+    have hm : ((strConnection, [67, 108, 111, 115, 101]) : Bytes × Bytes) ∈ (expMsg xCloseCase).fields := by
+      rw [expMsg_fields]
+      have h0 : ((strConnection, [67, 108, 111, 115, 101]) : Bytes × Bytes) ∈
+          (withFraming (serveHdr xCloseCase) (frame xCloseCase.p xCloseCase.isHead).framing).fields := by
+        rw [fields_split]
+        refine List.mem_append_left _ ?_
+        simp only [frontFields, List.mem_append]
+        exact Or.inl (Or.inl (Or.inr (by decide)))
+      have := mem_kept _ _ h0 (by decide +kernel)
+      have e : HW.newlineToSpace [67, 108, 111, 115, 101] = [67, 108, 111, 115, 101] := by decide +kernel
+      simpa [e] using this
+    unfold saysClose
+    rw [List.any_eq_true]
+    exact ⟨_, hm, by decide⟩
+  rw [h1, h2] at h
+  cases h
+
+end Seq
 
 end Hertz.Props.C04
